@@ -5,9 +5,11 @@ package main
 // extraction (decode helpers, error constructors), switch/if restructuring and hoisted locals do not change the table.
 
 import (
+	"go/ast"
 	"go/constant"
 	"go/token"
 	"go/types"
+	"sort"
 )
 
 type sxM struct {
@@ -157,6 +159,13 @@ func (m *Machine) builderOf(t Term, pre map[string]string) string {
 
 // builderString: t is <builder>.String(); returns the role.
 func (m *Machine) builderStringT(t Term, roles map[string]string) string {
+	if cv, ok := t.(TConv); ok && isStringType(cv.To) {
+		// string(buf): a []byte buffer as it was at the start of the iteration
+		if lv, ok := cv.X.(TLoop); ok && m.byteBufs[lv.Obj] {
+			return m.builders[lv.Obj]
+		}
+		return ""
+	}
 	c, ok := t.(TCall)
 	if !ok || c.Fun == nil || c.Fun.FullName() != "(*strings.Builder).String" || c.Recv == nil {
 		return ""
@@ -385,6 +394,20 @@ func (a *absEval) atom(t Term) (Tri, bool) {
 					return a.sizeCmp(op, k), true
 				}
 			}
+			// len(buf) OP 0 on a []byte buffer
+			if bl, ok := l.(TBuiltin); ok && bl.Name == "len" && len(bl.Args) == 1 {
+				if lv, ok := bl.Args[0].(TLoop); ok && m.byteBufs[lv.Obj] {
+					if k, ok := constInt(r); ok && k == 0 {
+						cur := a.bufLen[m.builders[lv.Obj]]
+						switch op {
+						case token.GTR, token.NEQ:
+							return cur, true
+						case token.EQL, token.LEQ:
+							return triNot(cur), true
+						}
+					}
+				}
+			}
 			// builder.Len() OP 0
 			if c, ok := l.(TCall); ok && c.Fun != nil && c.Fun.FullName() == "(*strings.Builder).Len" && c.Recv != nil {
 				if role := m.builderOf(c.Recv, a.roles); role != "" {
@@ -561,6 +584,39 @@ func (m *Machine) Step(state string, inVal Tri, bufLen map[string]Tri, class *Cl
 				m.undec(m.fn.Pos(), "loop index modified other than by a nested offset: %s", m.c.termStr(t))
 			}
 		}
+		// []byte buffers: what the iteration made of them, read off their final value (after every read of the iteration: reads
+		// name the buffer as it was at the start)
+		for _, o := range m.sortedByteBufs() {
+			t, ok := p.Env[o]
+			if !ok || m.loopVar(t, o) {
+				continue
+			}
+			if !m.byteBufUpdate(t, o, m.builders[o], a, env, binds, posOfNode(p.Node)) {
+				m.undec(posOfNode(p.Node), "buffer update not understood: %s = %s", o.Name(), m.c.termStr(t))
+			}
+		}
+		// string registers: only ever assigned the decoded key
+		var regs []types.Object
+		for o := range m.keyRegs {
+			regs = append(regs, o)
+		}
+		sort.Slice(regs, func(i, j int) bool { return regs[i].Pos() < regs[j].Pos() })
+		for _, o := range regs {
+			t, ok := p.Env[o]
+			if !ok || m.loopVar(t, o) {
+				continue
+			}
+			good := false
+			if pr, ok := t.(TProj); ok && pr.K == 0 {
+				if v := binds[key(pr.X)]; v != nil {
+					env.Acts = append(env.Acts, Action{Op: "KEYREG", Val: v, Pos: posOfNode(p.Node)})
+					good = true
+				}
+			}
+			if !good {
+				m.undec(posOfNode(p.Node), "string register %s assigned something other than a decoder's result: %s", o.Name(), m.c.termStr(t))
+			}
+		}
 		env.BufLen = a.bufLen
 		ex := Exit{Env: env, Pos: posOfNode(p.Node)}
 		switch p.End {
@@ -578,6 +634,112 @@ func (m *Machine) Step(state string, inVal Tri, bufLen map[string]Tri, class *Cl
 		exits = append(exits, ex)
 	}
 	return exits
+}
+
+func (m *Machine) sortedByteBufs() []types.Object {
+	var out []types.Object
+	for o := range m.byteBufs {
+		out = append(out, o)
+	}
+	sort.Slice(out, func(i, j int) bool { return out[i].Pos() < out[j].Pos() })
+	return out
+}
+
+// byteBufUpdate turns the final value of a []byte buffer into RESET / W actions: buf′, buf′[:0], nil, append(X, …), utf8.AppendRune(X, r).
+func (m *Machine) byteBufUpdate(t Term, o types.Object, role string, a *absEval, env *Env, binds map[string]*AVal, pos token.Pos) bool {
+	write := func(arg Term, spread bool) bool {
+		if cv, ok := arg.(TConv); ok && !spread {
+			arg = cv.X
+		}
+		switch {
+		case !spread && m.isChar(arg):
+			env.Acts = append(env.Acts, Action{Op: "W", Buf: role, What: "char", Pos: pos})
+			a.bufLen[role] = T
+			return true
+		case !spread:
+			if r, ok := runeOf(arg); ok {
+				env.Acts = append(env.Acts, Action{Op: "W", Buf: role, What: string(r), Pos: pos})
+				a.bufLen[role] = T
+				return true
+			}
+			return false
+		}
+		// spread string
+		if pr, ok := arg.(TProj); ok && pr.K == 0 {
+			if v := binds[key(pr.X)]; v != nil {
+				env.Acts = append(env.Acts, Action{Op: "W", Buf: role, What: "val", Val: v, Pos: pos})
+				a.bufLen[role] = U
+				return true
+			}
+		}
+		if m.isCurRuneBytes(arg) {
+			env.Acts = append(env.Acts, Action{Op: "W", Buf: role, What: "char", Pos: pos})
+			a.bufLen[role] = T
+			return true
+		}
+		if s, ok := isConstStringTerm(arg); ok {
+			env.Acts = append(env.Acts, Action{Op: "W", Buf: role, What: s, Pos: pos})
+			if s != "" {
+				a.bufLen[role] = T
+			}
+			return true
+		}
+		return false
+	}
+	switch x := t.(type) {
+	case TLoop:
+		return x.Obj == o
+	case TNil:
+		env.Acts = append(env.Acts, Action{Op: "RESET", Buf: role, Pos: pos})
+		a.bufLen[role] = F
+		return true
+	case TSlice:
+		hi0 := false
+		if k, ok := constInt(x.Hi); x.Hi != nil && ok && k == 0 {
+			hi0 = true
+		}
+		lo0 := x.Lo == nil
+		if k, ok := constInt(x.Lo); x.Lo != nil && ok && k == 0 {
+			lo0 = true
+		}
+		if lv, ok := x.X.(TLoop); ok && lv.Obj == o && hi0 && lo0 {
+			env.Acts = append(env.Acts, Action{Op: "RESET", Buf: role, Pos: pos})
+			a.bufLen[role] = F
+			return true
+		}
+		return false
+	case TBuiltin:
+		switch x.Name {
+		case "make":
+			if len(x.Args) >= 1 {
+				if k, ok := constInt(x.Args[0]); ok && k == 0 {
+					env.Acts = append(env.Acts, Action{Op: "RESET", Buf: role, Pos: pos})
+					a.bufLen[role] = F
+					return true
+				}
+			}
+			return false
+		case "append":
+			if len(x.Args) < 1 || !m.byteBufUpdate(x.Args[0], o, role, a, env, binds, pos) {
+				return false
+			}
+			spread := false
+			if ce, ok := x.Site.(*ast.CallExpr); ok && ce.Ellipsis.IsValid() {
+				spread = true
+			}
+			for _, arg := range x.Args[1:] {
+				if !write(arg, spread) {
+					return false
+				}
+			}
+			return true
+		}
+	case TCall:
+		if x.Fun != nil && x.Fun.FullName() == "unicode/utf8.AppendRune" && len(x.Args) == 2 {
+			return m.byteBufUpdate(x.Args[0], o, role, a, env, binds, pos) && write(x.Args[1], false)
+		}
+	}
+	return false
 }
 
 func (m *Machine) classifyReturnT(p *Path, a *absEval, env *Env) Exit {
@@ -763,6 +925,9 @@ func (m *Machine) callStep(st Step, a *absEval, env *Env, binds map[string]*AVal
 				return false
 			}
 			kb := m.builderStringT(args[0], a.roles)
+			if lv, ok := args[0].(TLoop); ok && m.keyRegs[lv.Obj] {
+				kb = "keyreg" // the register as it was at the start of the iteration
+			}
 			v := valOf(args[1])
 			if v == nil || kb == "" {
 				return false
